@@ -15,16 +15,17 @@ namespace IceTie.AgentSwitch
 open IceModel.AgentCore IceProofs.C03
 
 /-- model side of `shouldSwitchSelectedPair` (priorities as `Nat`) -/
-def shouldSwitch (hasSelected samePair hasValue needsPrio : Bool) (selPrio pairPrio : Nat) : Bool :=
+def shouldSwitch (hasSelected samePair hasValue hasLast needsPrio : Bool) (selPrio pairPrio : Nat) : Bool :=
   if !hasSelected then true
   else if samePair then false
   else if hasValue then true
+  else if hasLast then false
   else !needsPrio || decide (selPrio < pairPrio)
 
 /-- the generated function equals the model's rule for all arguments -/
-theorem shouldSwitch_gen_eq_model (hasSelected samePair hasValue needsPrio : Bool) (sp pp : UInt64) :
-    IceGen.controlledSelector_shouldSwitchSelectedPair hasSelected samePair hasValue needsPrio sp pp =
-    shouldSwitch hasSelected samePair hasValue needsPrio sp.toNat pp.toNat := by
+theorem shouldSwitch_gen_eq_model (hasSelected samePair hasValue hasLast needsPrio : Bool) (sp pp : UInt64) :
+    IceGen.controlledSelector_shouldSwitchSelectedPair hasSelected samePair hasValue hasLast needsPrio sp pp =
+    shouldSwitch hasSelected samePair hasValue hasLast needsPrio sp.toNat pp.toNat := by
   unfold IceGen.controlledSelector_shouldSwitchSelectedPair shouldSwitch
   simp only [UInt64.lt_iff_toNat_lt]
 
@@ -32,8 +33,9 @@ theorem shouldSwitch_gen_eq_model (hasSelected samePair hasValue needsPrio : Boo
 theorem cldSw_eq_shouldSwitch (a : Agent) (id : Nat) (m : Msg) (p : Pair) :
     cldSw a id m p =
     match a.selected.bind a.pairById with
-    | none => shouldSwitch false false m.nom.isSome (needsPrioCheck a.cfg) 0 (a.pairPrio p)
-    | some sp => shouldSwitch true (sp.id == id) m.nom.isSome (needsPrioCheck a.cfg) (a.pairPrio sp) (a.pairPrio p) := by
+    | none => shouldSwitch false false m.nom.isSome a.lastNomination.isSome (needsPrioCheck a.cfg) 0 (a.pairPrio p)
+    | some sp => shouldSwitch true (sp.id == id) m.nom.isSome a.lastNomination.isSome (needsPrioCheck a.cfg)
+        (a.pairPrio sp) (a.pairPrio p) := by
   unfold cldSw shouldSwitch
   cases a.selected.bind a.pairById with
   | none => rfl
